@@ -108,7 +108,7 @@ def run_schedule(lp, np_, sched, strings, b_kind):
     warnings.filterwarnings("ignore")
     np.random.seed(4242)
     pyrandom.seed(4242)
-    a = Actor(lp, np_, 7, strings)
+    a = Actor(lp, np_, 0 if strings else 7, strings)      # 0 is a legal seed like any other
     blp, bnp = (lp, np_) if b_kind == "same" else ("ucb1", "default-tree" if np_ != "default-tree" else "tree")
     b = Actor(blp, bnp, 8, strings, offset=3)
     ia = ib = 0
